@@ -42,7 +42,7 @@ pub fn run(k: &str, c: &Value) -> Value {
             let out: Vec<Value> = qs.iter().map(|q| {
                 let sp = std::panic::catch_unwind(std::panic::AssertUnwindSafe(|| mesh.surf_closest_to(q)));
                 let spv = match sp { Ok(s) => json!({"p": hp3(&s.point), "n": hv3(&s.normal.into_inner())}), Err(_) => json!({"panic": true}) };
-                let pc = mesh.point_closest_to(q);
+                let pc = match std::panic::catch_unwind(std::panic::AssertUnwindSafe(|| mesh.point_closest_to(q))) { Ok(p) => p, Err(_) => Point3::new(f64::NAN, f64::NAN, f64::NAN) };
                 let wm = mesh.project_with_max_dist(q, md).map(|(prj, id, l)| json!({"p": hp3(&prj.point), "inside": prj.is_inside, "id": id, "loc": loc(&l)}));
                 let wt = mesh.project_with_tol(q, md, ma, None).map(|(prj, id, _)| json!({"p": hp3(&prj.point), "id": id}));
                 let wtt = mesh.project_with_tol(q, md, ma, Some(&Iso3::identity())).map(|(prj, id, _)| json!({"p": hp3(&prj.point), "id": id}));
